@@ -1,4 +1,4 @@
-"""semantic engine: C16, C18, C19, C20 (C17 to follow)"""
+"""semantic engine: C16-C20"""
 SEM_TB = ["coq/Model/WasmP.v: the structured Wasm interpreter that *defines* when each probe mode fires (adequacy for control flow is trusted, not proved against the Wasm spec)",
           "coq/Model/Flat.v, Lowering.v, TreeLower.v: mirror of the flat resolution pass and the tree-level lowering (both compared with the real output on every case)"]
 COMMON = dict(
@@ -9,11 +9,12 @@ COMMON = dict(
                  "no Wasm engine exists in the sandbox: the execution oracle is the Gallina interpreter evaluated by vm_compute"],
 )
 SIM_NOTE = ("Trusted: Coq kernel + vm_compute; WasmP.v as the meaning of control flow and of the probe modes; the harness. The simulation theorem is about the "
-            "tree-level lowering; its tie to the implementation is the per-case comparison flat(lower tree) = emitted body (tree_tie) and mirror = emitted body, not a proof (resolve_flatten is not proved).")
+            "tree-level lowering; Proofs/Flatten.v proves that the flat mirror of resolve_special_instrumentation + emission produces exactly the flattening of that tree (resolve_flatten, all bodies in the fragment without the D15-D18 shapes), so the "
+            "end-to-end theorem is about the mirror; the mirror's tie to /repo is the per-case comparison mirror = emitted body (and tree_tie, which follows from it).")
 PROPS = {
     "C16": dict(COMMON,
         proof_targets=["Props/C16.vo"],
-        theorems=[("C16", "C16_lowered_body_simulates_spec"), ("C16", "C16_exec_mono")],
+        theorems=[("C16", "C16_lowered_body_simulates_spec"), ("C16", "C16_exec_mono"), ("C16", "C16_emitted_code_simulates_the_probe_semantics"), ("C16", "C16_tree_tie_follows_from_the_correspondence")],
         quick=dict(n=600), thorough=dict(n=12000),
         rule="typed, terminating, validator-accepted programs (nested blocks/loops/ifs, br/br_if/br_table to every enclosing non-loop label, return, unreachable, globals, locals, results) "
              "with 1-6 neutral probes over before/after/block-entry/block-exit/semantic-after and function entry/exit, 4 argument vectors each; non-trivial = every case (plan never empty)",
@@ -22,7 +23,7 @@ PROPS = {
                    "vs. the really emitted body; validity of the output by the real validator per sample.",
         level_note=SIM_NOTE, technique="Coq simulation proof + in-Coq differential execution against the real encoder output", design_ref="5/C16"),
     "C17": dict(COMMON,
-        proof_targets=["Props/C17.vo"], theorems=[("C17", "C17_real_placement_correct"), ("C17", "C17_function_entry_exit_lowering_correct"), ("C17", "C17_exit_before_every_exit_instruction")],
+        proof_targets=["Props/C17.vo"], theorems=[("C17", "C17_real_placement_correct"), ("C17", "C17_function_entry_exit_lowering_correct"), ("C17", "C17_exit_before_every_exit_instruction"), ("C17", "C17_emitted_code_simulates_the_probe_semantics"), ("C17", "C17_tree_tie_follows_from_the_correspondence")],
         quick=dict(n=1200), thorough=dict(n=16000),
         rule="as C16 with function entry and/or exit probes (returns and branches to the function label at every nesting depth, unreachable, results) plus some plain before/after probes; non-trivial = every case",
         level_text="Proof (all bodies, plans, configurations, fuel): the plain interpreter on the lowered function - lowered body wrapped in a block of the result type, exit probes spliced before every "
@@ -32,14 +33,14 @@ PROPS = {
         level_note=SIM_NOTE + " For C17 additionally: return_call/throw transfers themselves are not modelled (the interpreter stops after running the exit probes); probe code in front of the wrapper must be neutral (stack-neutral, events only).",
         technique="Coq simulation proof + in-Coq differential execution", design_ref="5/C17"),
     "C18": dict(COMMON,
-        proof_targets=["Props/C18.vo"], theorems=[("C18", "C18_block_entry_lowering_correct")],
+        proof_targets=["Props/C18.vo"], theorems=[("C18", "C18_block_entry_lowering_correct"), ("C18", "C18_emitted_code_simulates_the_probe_semantics"), ("C18", "C18_tree_tie_follows_from_the_correspondence")],
         quick=dict(n=1200), thorough=dict(n=16000),
         rule="as C16 with block-entry probes on random subsets of block/loop/if/else (+ some plain before/after); non-trivial = every case",
         level_text="Proof (simulation theorem, all programs) that the tree lowering of block-entry probes fires them on every entry (every loop iteration) and never otherwise; tied to the implementation by "
                    "flat(lower tree) = emitted body and by in-Coq differential execution on every sampled program.",
         level_note=SIM_NOTE, technique="Coq simulation proof + in-Coq differential execution", design_ref="5/C18"),
     "C19": dict(COMMON,
-        proof_targets=["Props/C19.vo"], theorems=[("C19", "C19_block_exit_tree_lowering_correct")],
+        proof_targets=["Props/C19.vo"], theorems=[("C19", "C19_block_exit_tree_lowering_correct"), ("C19", "C19_emitted_code_simulates_the_probe_semantics"), ("C19", "C19_tree_tie_follows_from_the_correspondence")],
         quick=dict(n=1200), thorough=dict(n=16000),
         rule="as C16 with block-exit probes on random subsets of block/loop/if/else, arbitrarily nested blocks inside if-arms; non-trivial = every case",
         level_text="Proof (simulation theorem) for the tree placement of block-exit probes; the implementation deviates in the known class D15 (refutation witness proved); outside D15 tied by "
